@@ -103,6 +103,8 @@ def gen_config(rnd, *, seg=None, ndim=None, allow_optional=True, per_axis=True, 
         cfg["id_repr"] = rnd.choice(["np.int64", "np.int64", "np.uint64", "np.intp"])
     if rnd.random() < 0.2:
         cfg["seq_repr"] = "list"
+    if rnd.random() < 0.25:
+        cfg["feature_metadata"] = True
     if seg and rnd.random() < 0.2:
         # the same label values in another memory layout: Fortran order, a crop (view) of a larger
         # array, an axis-moved view
@@ -482,6 +484,11 @@ class World:
             tracks.features[CUSTOM_EDGE] = ff.Feature(
                 feature_type="edge", value_type="int", num_values=1, display_name="EdgeWeight",
                 required=False, default_value=None)
+            if cfg.get("feature_metadata"):
+                # a registry entry with a field beyond the schema (unit of a measurement; the
+                # "recompute" flag of older files)
+                tracks.features[CUSTOM_NODE]["unit"] = "a.u."
+                tracks.features[CUSTOM_EDGE]["recompute"] = False
             if cfg.get("default_feature"):
                 tracks.features[CUSTOM_DEFAULT] = ff.Feature(
                     feature_type="node", value_type="str", num_values=1, display_name="Cell type",
